@@ -193,6 +193,9 @@ fn any_dependency_changed<Db: Database>(db: &Db, derived_node_id: DerivedNodeId)
             NodeKind::Source(key) => {
                 source_node_changed_since(db, key, dependency.time_verified_or_updated)
             }
+            NodeKind::AbsentSource(key) => {
+                db.get_storage().internal.get_source_node(key).is_some()
+            }
             NodeKind::Derived(dep_node_id) => {
                 derived_node_changed_since(db, dep_node_id, dependency.time_verified_or_updated)
             }
